@@ -18,7 +18,9 @@ non-trivial = the IRI contains a dot/empty/encoded segment or an absolute remain
     let root = { std::fs::create_dir_all(&root).unwrap(); root.canonicalize().unwrap() };
     let mk = |rel: &str, canary: bool| { let p = root.join(rel); std::fs::create_dir_all(p.parent().unwrap()).unwrap(); std::fs::write(&p, if canary { format!("CANARY:{}", p.display()) } else { p.display().to_string() }).unwrap(); };
     for f in ["r1/a.ttl", "r1/b", "r1/b.nt", "r1/d/c.rdf", "r1/d/e", "r1/%2e%2e", "r1/...", "r1/.hidden", "r1/f.jsonld", "r1/sub/inner.ttl", "r1/g", "r2/g.ttl", "r2/a", "r2/d/e.nt"] { mk(f, false); }
-    for f in ["secret", "secret.ttl", "outside/secret.ttl", "r1x/a.ttl", "a.ttl", "g.ttl"] { mk(f, true); }
+    for f in ["secret", "secret.ttl", "outside/secret.ttl", "r1x/a.ttl", "a.ttl", "g.ttl",
+              // siblings of the mapped directories whose names are the directory name plus a negotiated extension
+              "r1.ttl", "r1.nt", "r1.jsonld", "r1.rdf", "r2.ttl", "r2.nt", "r1", "sub.ttl"] { if f == "r1" { continue; } mk(f, true); }
     // model file system: every existing path with its kind, including the ancestors of root
     let mut fs_entries: Vec<(Vec<String>, bool)> = vec![];
     { let rc = comps(&root); for i in 1..=rc.len() { fs_entries.push((rc[..i].to_vec(), false)); } }
@@ -47,7 +49,9 @@ non-trivial = the IRI contains a dot/empty/encoded segment or an absolute remain
         // directed escape attempts: climb out with (possibly encoded) parent steps, then name a canary
         let climb = !abs_attack && r.chance(1, 4);
         if climb {
-            let ups = ["..", "%2e%2e", "%2E%2E", ".%2e", "%2e.", "..%2f..", "%2e%2e%2f%2e%2e", "sub/..", "d/../.."];
+            let ups = ["..", "%2e%2e", "%2E%2E", ".%2e", "%2e.", "..%2f..", "%2e%2e%2f%2e%2e", "sub/..", "d/../..",
+                       // empty segments must not count as a level down
+                       ".//..", "sub//../..", "/..", "d//../..", "a///../../..", "./", "", "sub//.."];
             let targets = ["secret", "secret.ttl", "a.ttl", "g.ttl", "outside/secret.ttl", "outside/secret", "r1x/a.ttl", "r1x/a", "r2/a", "r1/b", "..%2fsecret.ttl"];
             path = (0..r.range(1, 3)).map(|_| r.ps(&ups).to_string()).collect();
             if r.chance(1, 5) { path.insert(0, r.pick(&segs).clone()); }
@@ -55,6 +59,8 @@ non-trivial = the IRI contains a dot/empty/encoded segment or an absolute remain
         }
         let long = r.chance(1, 40);
         if long { path.push("x".repeat(300)); }
+        // the namespace itself (and "the namespace plus ./"): the last path component is then the mapped directory
+        if !abs_attack && !climb && r.chance(1, 12) { path = match r.below(4) { 0 => vec![], 1 => vec![".".into()], 2 => vec!["".into()], _ => vec![".".into(), "".into()] }; }
         let mut iri = format!("{prefix}{}", path.join("/"));
         if r.chance(1, 8) { iri.push_str("?q=1"); }
         if r.chance(1, 4) { iri.push_str("#frag/../x"); }
